@@ -23,6 +23,7 @@
 #include <sys/stat.h>
 #include <fcntl.h>
 #include "gen_qmail-queue.c"
+#include "auto_split.h"
 
 #ifndef MODE
 #define MODE 0
@@ -291,6 +292,19 @@ int vf_link(const char *a, const char *b)
   crash_check();
   if (a == pidfn && b == messfn) {
     V(17, pid_x);
+#if MODE == 1
+    {
+      /* C02: the message's name is its inode number: mess/<ino mod split>/<ino> */
+      char want[40]; unsigned int n = 0, i; unsigned long v;
+      char t[24]; unsigned int k;
+      want[n++] = 'm'; want[n++] = 'e'; want[n++] = 's'; want[n++] = 's'; want[n++] = '/';
+      v = MY_INO % (unsigned long) auto_split; k = 0; do { t[k++] = (char) ('0' + v % 10); v /= 10; } while (v); while (k) want[n++] = t[--k];
+      want[n++] = '/';
+      v = MY_INO; k = 0; do { t[k++] = (char) ('0' + v % 10); v /= 10; } while (v); while (k) want[n++] = t[--k];
+      want[n] = 0;
+      for (i = 0; i < 40; ++i) { V(33, b[i] == want[i]); if (!want[i]) break; }
+    }
+#endif
     if (draw()) { if (!fault_code) fault_code = 64; errno = EEXIST; return -1; }
     mess_x = 1;
     return 0;
@@ -381,7 +395,8 @@ static void end_of_run(int status)
   CHECK(viol != 26, "C01(a): no failed system call is ignored before the commit point");
   CHECK(viol != 10 && viol != 11 && viol != 13, "C01(d): alarm(DEATH < OSSIFIED) armed before any file is created");
   CHECK(viol != 12, "C01: pid/ and intd/ files are created with O_EXCL");
-  CHECK(viol == 0 || (viol >= 1 && viol <= 6) || viol == 10 || viol == 11 || viol == 12 || viol == 13 || viol == 14 ||
+  CHECK(viol != 33, "C02: the message file is named after the inode number of the file itself (mess/<ino mod split>/<ino>)");
+  CHECK(viol == 0 || (viol >= 1 && viol <= 6) || viol == 10 || viol == 11 || viol == 12 || viol == 13 || viol == 14 || viol == 33 ||
         (viol >= 20 && viol <= 26), "model: unexpected call shape (harness sizing / stub contract)");
   CHECK((status == 0) == (todo_x != 0), "C01(c): exit status 0 if and only if todo/N exists");
   if (fault_code) {
